@@ -362,3 +362,5 @@ func writeJSON(path string, v any) error {
 	}
 	return os.WriteFile(path, b, 0o644)
 }
+
+func float64frombits(u uint64) float64 { return math.Float64frombits(u) }
